@@ -193,13 +193,16 @@ def record(lentil, tier, seed):
     seg = sys.modules['lentil.segmented']
     for k in range(1, 7 if q else 9):
         add({'act': 'hexring', 'k': k, 'cells': [[int(c.q), int(c.r), int(c.s)] for c in seg.hex_ring(k)]})
-    for _ in range(6 if q else 40):
+    # every combination of orientation x centre segment kept / dropped x gap (the centre segment is drawn by its own call)
+    combos = [(rot, keep, gap) for rot in (True, False) for keep in (True, False) for gap in (0.0, 1.0, 2.5)]
+    for (rot, keep, gap) in combos * (1 if q else 4):
         rings = rng.choice((1, 2)) if q else rng.choice((1, 2, 3))
         R = rng.choice((3.3, 4.6, 5.2))                      # non-integer radii: no sample lies exactly on an edge
-        gap = rng.choice((0.0, 1.0, 2.5))
         nseg = 1 + 3 * rings * (rings + 1)
-        drop = tuple(sorted(rng.sample(range(nseg), rng.choice((0, 1, 2)))))
-        rot = rng.random() < 0.5
+        drop = set(rng.sample(range(1, nseg), rng.choice((0, 1, 2))))
+        if not keep:
+            drop.add(0)
+        drop = tuple(sorted(drop))
         masks = lentil.hex_segments(rings, R, gap, rotate=rot, antialias=False, drop=drop)
         # samples lying exactly on an edge of some segment (shared by two closed hexagons at gap 0) are ties: exempt
         shp = masks.shape[1:]
